@@ -1,1 +1,279 @@
-//! independent JSON reader (placeholder, see C16)
+//! Independent, strict, order-preserving JSON reader (RFC 8259). Numbers are kept as their
+//! source text so that 128-bit integers and float spellings can be compared exactly.
+
+#[derive(Debug, Clone, PartialEq)]
+pub enum J {
+    Null,
+    Bool(bool),
+    Num(String),
+    Str(String),
+    Arr(Vec<J>),
+    Obj(Vec<(String, J)>),
+}
+
+pub struct P<'a> {
+    s: &'a [u8],
+    i: usize,
+    depth: usize,
+}
+
+pub fn parse(text: &str) -> Result<J, String> {
+    let mut p = P { s: text.as_bytes(), i: 0, depth: 0 };
+    p.ws();
+    let v = p.value()?;
+    p.ws();
+    if p.i != p.s.len() {
+        return Err(format!("trailing data at byte {}", p.i));
+    }
+    Ok(v)
+}
+
+impl<'a> P<'a> {
+    fn ws(&mut self) {
+        while self.i < self.s.len() && matches!(self.s[self.i], b' ' | b'\t' | b'\n' | b'\r') {
+            self.i += 1;
+        }
+    }
+    fn peek(&self) -> Option<u8> {
+        self.s.get(self.i).cloned()
+    }
+    fn expect(&mut self, c: u8) -> Result<(), String> {
+        if self.peek() == Some(c) {
+            self.i += 1;
+            Ok(())
+        } else {
+            Err(format!("expected '{}' at byte {}", c as char, self.i))
+        }
+    }
+    fn lit(&mut self, w: &str, v: J) -> Result<J, String> {
+        if self.s[self.i..].starts_with(w.as_bytes()) {
+            self.i += w.len();
+            Ok(v)
+        } else {
+            Err(format!("bad literal at byte {}", self.i))
+        }
+    }
+    fn value(&mut self) -> Result<J, String> {
+        self.depth += 1;
+        if self.depth > 200 {
+            return Err("nesting too deep".into());
+        }
+        let r = match self.peek() {
+            None => Err("unexpected end".into()),
+            Some(b'n') => self.lit("null", J::Null),
+            Some(b't') => self.lit("true", J::Bool(true)),
+            Some(b'f') => self.lit("false", J::Bool(false)),
+            Some(b'"') => self.string().map(J::Str),
+            Some(b'[') => {
+                self.i += 1;
+                let mut v = vec![];
+                self.ws();
+                if self.peek() == Some(b']') {
+                    self.i += 1;
+                } else {
+                    loop {
+                        self.ws();
+                        v.push(self.value()?);
+                        self.ws();
+                        match self.peek() {
+                            Some(b',') => self.i += 1,
+                            Some(b']') => {
+                                self.i += 1;
+                                break;
+                            }
+                            _ => return Err(format!("expected , or ] at byte {}", self.i)),
+                        }
+                    }
+                }
+                Ok(J::Arr(v))
+            }
+            Some(b'{') => {
+                self.i += 1;
+                let mut v = vec![];
+                self.ws();
+                if self.peek() == Some(b'}') {
+                    self.i += 1;
+                } else {
+                    loop {
+                        self.ws();
+                        let k = self.string()?;
+                        self.ws();
+                        self.expect(b':')?;
+                        self.ws();
+                        let x = self.value()?;
+                        v.push((k, x));
+                        self.ws();
+                        match self.peek() {
+                            Some(b',') => self.i += 1,
+                            Some(b'}') => {
+                                self.i += 1;
+                                break;
+                            }
+                            _ => return Err(format!("expected , or }} at byte {}", self.i)),
+                        }
+                    }
+                }
+                Ok(J::Obj(v))
+            }
+            Some(c) if c == b'-' || c.is_ascii_digit() => self.number(),
+            Some(c) => Err(format!("unexpected byte {:#x} at {}", c, self.i)),
+        };
+        self.depth -= 1;
+        r
+    }
+    fn number(&mut self) -> Result<J, String> {
+        let st = self.i;
+        if self.peek() == Some(b'-') {
+            self.i += 1;
+        }
+        match self.peek() {
+            Some(b'0') => self.i += 1,
+            Some(c) if c.is_ascii_digit() => {
+                while self.peek().map(|c| c.is_ascii_digit()).unwrap_or(false) {
+                    self.i += 1;
+                }
+            }
+            _ => return Err(format!("bad number at byte {}", st)),
+        }
+        if self.peek() == Some(b'.') {
+            self.i += 1;
+            if !self.peek().map(|c| c.is_ascii_digit()).unwrap_or(false) {
+                return Err(format!("bad fraction at byte {}", self.i));
+            }
+            while self.peek().map(|c| c.is_ascii_digit()).unwrap_or(false) {
+                self.i += 1;
+            }
+        }
+        if matches!(self.peek(), Some(b'e') | Some(b'E')) {
+            self.i += 1;
+            if matches!(self.peek(), Some(b'+') | Some(b'-')) {
+                self.i += 1;
+            }
+            if !self.peek().map(|c| c.is_ascii_digit()).unwrap_or(false) {
+                return Err(format!("bad exponent at byte {}", self.i));
+            }
+            while self.peek().map(|c| c.is_ascii_digit()).unwrap_or(false) {
+                self.i += 1;
+            }
+        }
+        Ok(J::Num(String::from_utf8_lossy(&self.s[st..self.i]).to_string()))
+    }
+    fn hex4(&mut self) -> Result<u32, String> {
+        if self.i + 4 > self.s.len() {
+            return Err("short \\u escape".into());
+        }
+        let t = std::str::from_utf8(&self.s[self.i..self.i + 4]).map_err(|_| "bad \\u escape".to_string())?;
+        let v = u32::from_str_radix(t, 16).map_err(|_| "bad \\u escape".to_string())?;
+        self.i += 4;
+        Ok(v)
+    }
+    fn string(&mut self) -> Result<String, String> {
+        self.expect(b'"')?;
+        let mut out: Vec<u8> = vec![];
+        loop {
+            let c = self.peek().ok_or("unterminated string")?;
+            self.i += 1;
+            match c {
+                b'"' => break,
+                b'\\' => {
+                    let e = self.peek().ok_or("unterminated escape")?;
+                    self.i += 1;
+                    match e {
+                        b'"' => out.push(b'"'),
+                        b'\\' => out.push(b'\\'),
+                        b'/' => out.push(b'/'),
+                        b'b' => out.push(8),
+                        b'f' => out.push(12),
+                        b'n' => out.push(b'\n'),
+                        b'r' => out.push(b'\r'),
+                        b't' => out.push(b'\t'),
+                        b'u' => {
+                            let mut cp = self.hex4()?;
+                            if (0xD800..0xDC00).contains(&cp) {
+                                if self.peek() == Some(b'\\') && self.s.get(self.i + 1) == Some(&b'u') {
+                                    self.i += 2;
+                                    let lo = self.hex4()?;
+                                    if !(0xDC00..0xE000).contains(&lo) {
+                                        return Err("bad low surrogate".into());
+                                    }
+                                    cp = 0x10000 + ((cp - 0xD800) << 10) + (lo - 0xDC00);
+                                } else {
+                                    return Err("lone high surrogate".into());
+                                }
+                            } else if (0xDC00..0xE000).contains(&cp) {
+                                return Err("lone low surrogate".into());
+                            }
+                            let ch = char::from_u32(cp).ok_or("bad code point")?;
+                            let mut b = [0u8; 4];
+                            out.extend_from_slice(ch.encode_utf8(&mut b).as_bytes());
+                        }
+                        _ => return Err(format!("bad escape at byte {}", self.i)),
+                    }
+                }
+                c if c < 0x20 => return Err(format!("raw control character in string at byte {}", self.i)),
+                c => out.push(c),
+            }
+        }
+        String::from_utf8(out).map_err(|_| "string is not UTF-8".to_string())
+    }
+}
+
+/// first difference between two trees, as (path, got, want)
+pub fn diff(got: &J, want: &J, path: &str) -> Option<(String, String, String)> {
+    fn short(j: &J) -> String {
+        let s = format!("{:?}", j);
+        if s.len() > 120 {
+            format!("{}...", &s[..120])
+        } else {
+            s
+        }
+    }
+    match (got, want) {
+        (J::Arr(a), J::Arr(b)) => {
+            if a.len() != b.len() {
+                return Some((path.to_string(), format!("array of {}", a.len()), format!("array of {}", b.len())));
+            }
+            for (i, (x, y)) in a.iter().zip(b.iter()).enumerate() {
+                if let Some(d) = diff(x, y, &format!("{}[{}]", path, i)) {
+                    return Some(d);
+                }
+            }
+            None
+        }
+        (J::Obj(a), J::Obj(b)) => {
+            let ka: Vec<&String> = a.iter().map(|x| &x.0).collect();
+            let kb: Vec<&String> = b.iter().map(|x| &x.0).collect();
+            if ka != kb {
+                return Some((path.to_string(), format!("keys {:?}", ka), format!("keys {:?}", kb)));
+            }
+            for ((k, x), (_, y)) in a.iter().zip(b.iter()) {
+                if let Some(d) = diff(x, y, &format!("{}.{}", path, k)) {
+                    return Some(d);
+                }
+            }
+            None
+        }
+        (J::Num(a), J::Num(b)) => {
+            if a == b {
+                return None;
+            }
+            // float spellings: equal iff they parse to the same bits
+            let is_float = |s: &str| s.contains('.') || s.contains('e') || s.contains('E');
+            if is_float(a) || is_float(b) {
+                if let (Ok(x), Ok(y)) = (a.parse::<f64>(), b.parse::<f64>()) {
+                    if x.to_bits() == y.to_bits() {
+                        return None;
+                    }
+                }
+            }
+            Some((path.to_string(), a.clone(), b.clone()))
+        }
+        (a, b) => {
+            if a == b {
+                None
+            } else {
+                Some((path.to_string(), short(a), short(b)))
+            }
+        }
+    }
+}
